@@ -35,7 +35,9 @@ ASSUMPTIONS = [
 ]
 ENVVAR = 'pgradd_DATA_DIR'
 RELOC = ['/sim/relocated/data', '/sim/other place/pgradd-data',
-         '/mnt/x/y/z/data']
+         '/mnt/x/y/z/data',
+         # characters that are legal in a directory name and special elsewhere
+         '/sim/snapshots/2024-05-01T10:30:00/data', '/sim/a,b;c=d/$HOME/~x/data']
 ELSEWHERE = '/sim/elsewhere'
 
 _st = {}
@@ -362,6 +364,8 @@ class Run(object):
         # directories are acceptable then.  A failed resolution resolves
         # nothing.
         cur = env.get(ENVVAR) or self.bundled
+        if len(cur) > 1:
+            cur = cur.rstrip('/')      # 'dir/' names the directory 'dir'
         cur_valid = cur in world['roots']
         if op['op'] == 'load_name':
             if resolved is None:
@@ -501,6 +505,16 @@ def matrix_specs():
                           {'op': 'chdir', 'dir': ELSEWHERE},
                           {'op': 'load_path', 'lib': a, 'root': ELSEWHERE,
                            'rel': 'root'}]}]})
+    # relocated copies below directories with unusual but legal names, and
+    # the override written with a trailing separator
+    for i, loc in enumerate(RELOC[1:]):
+        for j, val in enumerate((loc, loc + '/')):
+            specs.append({'id': 'matrix-relocname-%d-%d' % (i, j),
+                          'roots': [loc], 'env': {ENVVAR: val},
+                          'lives': [{'ops': [
+                              {'op': 'load_name', 'lib': small[i % len(small)]},
+                              {'op': 'load_name',
+                               'lib': small[(i + 3) % len(small)]}]}]})
     # one more property-set type registered before loading
     for lib in small[:2] + ['BensonGA']:
         specs.append({'id': 'matrix-extraset-%s' % lib,
@@ -776,6 +790,17 @@ def post_check(results, tier, run_fresh):
         docs = [{'lib': l} for l in libs]
         plain = run_fresh(docs)
         reloc = run_fresh([dict(d, env={ENVVAR: dst}) for d in docs])
+        # a second copy that stores byte-identical files once (file-level
+        # symbolic links across the library directories), below a directory
+        # whose name has a colon in it
+        dst2 = os.path.join(tmp, 'snap-10:30:00', 'data')
+        shutil.copytree(bundled_dir(), dst2)
+        nlinks = _dedup_with_symlinks(dst2)
+        libs2 = libs + [l for l in ('PPY', 'BensonGA') if l not in libs]
+        if tier == 'quick':
+            libs2 = libs2[:3]
+        plain2 = plain + run_fresh([{'lib': l} for l in libs2[len(libs):]])
+        dedup = run_fresh([{'lib': l, 'env': {ENVVAR: dst2}} for l in libs2])
     finally:
         shutil.rmtree(tmp, ignore_errors=True)
         os.environ.pop(ENVVAR + '_VERIF', None)
@@ -799,4 +824,34 @@ def post_check(results, tier, run_fresh):
                          'lives': []}
             v['run'] = 'real-fs-' + l
             viols.append(v)
-    return viols, {'real_file_system_scenarios': 2 * len(libs)}
+    for l, a, b in zip(libs2, plain2, dedup):
+        if a is None or b is None or a != b:
+            v = core.violation(
+                PROP, 'identical-contents', 'real-fs',
+                'real-file-system|deduplicated-copy-differs-or-fails',
+                {'lib': l, 'bundled': a, 'relocated': b,
+                 'symbolic_links': nlinks})
+            v['spec'] = {'property': PROP, 'id': 'real-fs', 'roots': [],
+                         'lives': []}
+            v['run'] = 'real-fs-dedup-' + l
+            viols.append(v)
+    return viols, {'real_file_system_scenarios': 2 * len(libs) + len(libs2),
+                   'symbolic_links_in_deduplicated_copy': nlinks}
+
+
+def _dedup_with_symlinks(root):
+    import hashlib
+    first = {}
+    n = 0
+    for d, _, names in sorted(os.walk(root)):
+        for name in sorted(names):
+            path = os.path.join(d, name)
+            with open(path, 'rb') as f:
+                h = hashlib.sha256(f.read()).hexdigest()
+            if h in first:
+                os.remove(path)
+                os.symlink(os.path.relpath(first[h], d), path)
+                n += 1
+            else:
+                first[h] = path
+    return n
